@@ -3,7 +3,7 @@ CONSTANTS
   ShiftStyle = "pad" LevelStyle = "match" TruncStyle = "exact" AnalyticStyle = "outer" BCubic = "plus"
   Sizes = {302, 403}
   Cells = {23}
-  Halos = {99, 0, 3}
+  Halos = {99, 0, 2, 3}
   ModeSet = {202, 1212}
   NZs = {3}
   LevelLists = "asc"
